@@ -205,41 +205,100 @@ Qed.
 Ltac fin3 := split; [try reflexivity | split; [reflexivity |
   first [apply same_but_cookies_refl | apply same_but_cookies_update]]].
 
-Lemma cookie_validate_ok cfg st q p sv s u st1 outs :
-  cookie_validate cfg st q p sv s u = Ok (st1, outs, VOk) ->
-  cookie_ok (sv_cookie sv) q p = true /\ outs = [] /\ same_but_cookies st1 st.
+Lemma cookie_decide_ok ck reqc resp rcode s u ck1 :
+  cookie_decide ck reqc resp rcode s u = Ok (ck1, COk) -> cookie_ok_core ck reqc resp rcode = true.
 Proof.
-  unfold cookie_validate, cookie_ok.
-  destruct (p_cookie p) as [pc|] eqn:Epc.
-  - (* response carries a cookie *)
-    destruct ((zlen pc <? 8) || (40 <? zlen pc)) eqn:Elen; [discriminate|].
+  unfold cookie_decide, cookie_ok_core.
+  destruct resp as [pc|].
+  - destruct ((zlen pc <? 8) || (40 <? zlen pc)) eqn:Elen; [discriminate|].
     apply orb_false_iff in Elen. destruct Elen as [L1 L2].
     apply Z.ltb_ge in L1. apply Z.ltb_ge in L2.
     assert ((8 <=? zlen pc) && (zlen pc <=? 40) = true) as LL.
     { apply andb_true_iff. split; apply Z.leb_le; lia. }
     rewrite LL. simpl.
-    destruct (q_cookie q) as [rc|] eqn:Erc.
-    + destruct (memcmp8_eq rc pc) as [e| |] eqn:Em; simpl; try discriminate.
-      apply memcmp8_eq_ok in Em. subst e.
-      destruct (bytes_eqb (first8 rc) (first8 pc)) eqn:Eeq; simpl; [|discriminate].
-      destruct (8 <? zlen pc) eqn:E8; simpl.
-      * destruct (memcmp8_eq (ck_client (sv_cookie sv)) rc) as [same| |]; simpl; try discriminate.
-        destruct (p_rcode p =? ARES_RCODE_BADCOOKIE) eqn:Ebc.
-        -- destruct (requeue_query _ _ _ _ _ _) as [st2 o2]. discriminate.
-        -- intros H. inversion H; subst. fin3.
-      * destruct (p_rcode p =? ARES_RCODE_BADCOOKIE) eqn:Ebc.
-        -- destruct (requeue_query _ _ _ _ _ _) as [st2 o2]. discriminate.
-        -- destruct (ck_state (sv_cookie sv) =? C05_COOKIE_SUPPORTED) eqn:Esup; [discriminate|].
-           destruct (ck_state (sv_cookie sv) =? C05_COOKIE_GENERATED);
-             intros H; inversion H; subst; fin3.
-    + intros H. inversion H; subst. fin3.
-  - (* no cookie in the response *)
-    simpl. destruct (q_cookie q) as [rc|] eqn:Erc.
-    + simpl. destruct (p_rcode p =? ARES_RCODE_BADCOOKIE) eqn:Ebc; [discriminate|].
-      simpl. destruct (ck_state (sv_cookie sv) =? C05_COOKIE_SUPPORTED) eqn:Esup; [discriminate|].
-      destruct (ck_state (sv_cookie sv) =? C05_COOKIE_GENERATED);
-        intros H; inversion H; subst; fin3.
-    + intros H. inversion H; subst. fin3.
+    destruct reqc as [rc|]; [|reflexivity].
+    destruct (memcmp8_eq rc pc) as [e| |] eqn:Em; simpl; try discriminate.
+    apply memcmp8_eq_ok in Em. subst e.
+    destruct (bytes_eqb (first8 rc) (first8 pc)); simpl; [|discriminate].
+    destruct (8 <? zlen pc) eqn:E8; simpl; [reflexivity|].
+    destruct (rcode =? ARES_RCODE_BADCOOKIE); [discriminate|].
+    destruct (ck_state ck =? C05_COOKIE_SUPPORTED); [|reflexivity].
+    destruct (c_timeval_is_set _ _); simpl; discriminate.
+  - simpl. destruct reqc as [rc|]; [|reflexivity]. simpl.
+    destruct (rcode =? ARES_RCODE_BADCOOKIE); [discriminate|].
+    destruct (ck_state ck =? C05_COOKIE_SUPPORTED); [|reflexivity].
+    destruct (c_timeval_is_set _ _); simpl; discriminate.
+Qed.
+
+Lemma cookie_decide_inert ck reqc resp rcode s u r :
+  cookie_ok_core ck reqc resp rcode = false ->
+  cookie_decide ck reqc resp rcode s u = Ok r -> snd r = CDrop.
+Proof.
+  unfold cookie_decide, cookie_ok_core.
+  destruct resp as [pc|].
+  - destruct ((zlen pc <? 8) || (40 <? zlen pc)) eqn:Elen.
+    { intros _ H. inversion H. reflexivity. }
+    apply orb_false_iff in Elen. destruct Elen as [L1 L2].
+    apply Z.ltb_ge in L1. apply Z.ltb_ge in L2.
+    assert ((8 <=? zlen pc) && (zlen pc <=? 40) = true) as LL.
+    { apply andb_true_iff. split; apply Z.leb_le; lia. }
+    rewrite LL. simpl.
+    destruct reqc as [rc|]; [|discriminate].
+    destruct (memcmp8_eq rc pc) as [e| |] eqn:Em; simpl; try discriminate.
+    apply memcmp8_eq_ok in Em. subst e.
+    destruct (bytes_eqb (first8 rc) (first8 pc)); simpl.
+    2:{ intros _ H. inversion H. reflexivity. }
+    destruct (8 <? zlen pc) eqn:E8; simpl; [discriminate|].
+    destruct (rcode =? ARES_RCODE_BADCOOKIE). { rewrite orb_true_r. discriminate. }
+    rewrite orb_false_r.
+    destruct (ck_state ck =? C05_COOKIE_SUPPORTED); [|discriminate].
+    intros _. destruct (c_timeval_is_set _ _); simpl; intros H; inversion H. reflexivity.
+  - simpl. destruct reqc as [rc|]; [|discriminate]. simpl.
+    destruct (rcode =? ARES_RCODE_BADCOOKIE). { intros _ H. inversion H. reflexivity. }
+    destruct (ck_state ck =? C05_COOKIE_SUPPORTED); [|discriminate].
+    intros _. destruct (c_timeval_is_set _ _); simpl; intros H; inversion H. reflexivity.
+Qed.
+
+Lemma cookie_decide_client ck reqc resp rcode s u ck1 d :
+  zlen (ck_client ck) = 8 -> cookie_decide ck reqc resp rcode s u = Ok (ck1, d) ->
+  zlen (ck_client ck1) = 8.
+Proof.
+  intros L8. unfold cookie_decide.
+  destruct (match resp with Some _ => _ | None => false end). { intros H. inversion H; subst. exact L8. }
+  destruct reqc as [rc|]. 2:{ intros H. inversion H; subst. exact L8. }
+  destruct (match resp with Some rc0 => _ | None => Ok false end) as [mm| |]; simpl; try discriminate.
+  destruct mm. { intros H. inversion H; subst. exact L8. }
+  destruct (match resp with Some rc0 => _ | None => Ok ck end) as [ck2| |] eqn:Eck; simpl; try discriminate.
+  assert (zlen (ck_client ck2) = 8) as L2.
+  { destruct resp as [pc|]; [|inversion Eck; subst; exact L8].
+    destruct (8 <? zlen pc); [|inversion Eck; subst; exact L8].
+    destruct (memcmp8_eq _ _) in Eck; simpl in Eck; inversion Eck; subst. exact L8. }
+  destruct (rcode =? ARES_RCODE_BADCOOKIE).
+  { destruct resp; intros H; inversion H; subst; exact L2. }
+  destruct (8 <? _). { intros H. inversion H; subst. exact L2. }
+  destruct (ck_state ck2 =? C05_COOKIE_SUPPORTED).
+  { destruct (c_timeval_is_set _ _); simpl; try discriminate. intros H. inversion H; subst.
+    destruct (_ =? ARES_FALSE); exact L2. }
+  destruct (ck_state ck2 =? C05_COOKIE_GENERATED); intros H; inversion H; subst; [reflexivity|exact L2].
+Qed.
+
+Lemma c_timeval_is_set_ok a b : exists r, c_timeval_is_set a b = Ok r.
+Proof.
+  unfold c_timeval_is_set.
+  match goal with |- context [if ?c then _ else _] => destruct c end; eauto.
+Qed.
+
+Lemma cookie_validate_ok cfg st q p sv s u st1 outs :
+  cookie_validate cfg st q p sv s u = Ok (st1, outs, VOk) ->
+  cookie_ok (sv_cookie sv) q p = true /\ outs = [] /\ same_but_cookies st1 st.
+Proof.
+  unfold cookie_validate, cookie_ok.
+  destruct (cookie_decide _ _ _ _ _ _) as [[ck1 d]| |] eqn:Ed; simpl; try discriminate.
+  destruct d.
+  - discriminate.
+  - intros H. inversion H; subst. split; [eapply cookie_decide_ok; eauto|].
+    split; [reflexivity|apply same_but_cookies_update].
+  - destruct (requeue_query _ _ _ _ _ _) as [st2 o2]. discriminate.
 Qed.
 
 Lemma cookie_validate_inert cfg st q p sv s u r :
@@ -247,31 +306,10 @@ Lemma cookie_validate_inert cfg st q p sv s u r :
   cookie_validate cfg st q p sv s u = Ok r ->
   exists st1, r = (st1, [], VDrop) /\ same_but_cookies st1 st.
 Proof.
-  unfold cookie_validate, cookie_ok.
-  destruct (p_cookie p) as [pc|] eqn:Epc.
-  - destruct ((zlen pc <? 8) || (40 <? zlen pc)) eqn:Elen.
-    { intros _ H. inversion H. eexists. split; [reflexivity|apply same_but_cookies_refl]. }
-    apply orb_false_iff in Elen. destruct Elen as [L1 L2].
-    apply Z.ltb_ge in L1. apply Z.ltb_ge in L2.
-    assert ((8 <=? zlen pc) && (zlen pc <=? 40) = true) as LL.
-    { apply andb_true_iff. split; apply Z.leb_le; lia. }
-    rewrite LL. simpl.
-    destruct (q_cookie q) as [rc|] eqn:Erc; [|discriminate].
-    destruct (memcmp8_eq rc pc) as [e| |] eqn:Em; simpl; try discriminate.
-    apply memcmp8_eq_ok in Em. subst e.
-    destruct (bytes_eqb (first8 rc) (first8 pc)) eqn:Eeq; simpl.
-    2:{ intros _ H. inversion H. eexists. split; [reflexivity|apply same_but_cookies_refl]. }
-    destruct (8 <? zlen pc) eqn:E8; simpl; [discriminate|].
-    destruct (p_rcode p =? ARES_RCODE_BADCOOKIE) eqn:Ebc.
-    { rewrite orb_true_r. discriminate. }
-    rewrite orb_false_r.
-    destruct (ck_state (sv_cookie sv) =? C05_COOKIE_SUPPORTED) eqn:Esup; [|discriminate].
-    intros _ H. inversion H. eexists. split; [reflexivity|apply same_but_cookies_update].
-  - simpl. destruct (q_cookie q) as [rc|] eqn:Erc; [|discriminate].
-    simpl. destruct (p_rcode p =? ARES_RCODE_BADCOOKIE) eqn:Ebc.
-    { intros _ H. inversion H. eexists. split; [reflexivity|apply same_but_cookies_update]. }
-    destruct (ck_state (sv_cookie sv) =? C05_COOKIE_SUPPORTED) eqn:Esup; [|discriminate].
-    intros _ H. inversion H. eexists. split; [reflexivity|apply same_but_cookies_update].
+  unfold cookie_validate, cookie_ok. intros Hck.
+  destruct (cookie_decide _ _ _ _ _ _) as [[ck1 d]| |] eqn:Ed; simpl; try discriminate.
+  pose proof (cookie_decide_inert _ _ _ _ _ _ _ Hck Ed) as Hd. simpl in Hd. subst d.
+  intros H. inversion H. eexists. split; [reflexivity|apply same_but_cookies_update].
 Qed.
 
 (* ------------------------------------------------------------------------------------- *)
@@ -324,21 +362,10 @@ Lemma cookie_validate_nodata cfg st q p sv s u st1 outs v :
   cookie_validate cfg st q p sv s u = Ok (st1, outs, v) -> Forall nodata outs.
 Proof.
   unfold cookie_validate.
-  destruct (match p_cookie p with Some _ => _ | None => false end).
-  { intros H. inversion H. constructor. }
-  destruct (q_cookie q) as [rc|].
-  2:{ intros H. inversion H. constructor. }
-  destruct (match p_cookie p with Some rc0 => _ | None => Ok false end) as [mm| |]; simpl; try discriminate.
-  destruct mm. { intros H. inversion H. constructor. }
-  destruct (match p_cookie p with Some rc0 => _ | None => Ok (sv_cookie sv) end) as [ck1| |]; simpl; try discriminate.
-  destruct (p_rcode p =? ARES_RCODE_BADCOOKIE).
-  - destruct (p_cookie p).
-    + destruct (requeue_query _ _ _ _ _ _) as [st2 o2] eqn:Er. intros H. inversion H; subst.
-      eapply requeue_query_nodata; eauto.
-    + intros H. inversion H. constructor.
-  - destruct (8 <? _). { intros H. inversion H. constructor. }
-    destruct (ck_state ck1 =? C05_COOKIE_SUPPORTED). { intros H. inversion H. constructor. }
-    destruct (ck_state ck1 =? C05_COOKIE_GENERATED); intros H; inversion H; constructor.
+  destruct (cookie_decide _ _ _ _ _ _) as [[ck1 d]| |]; simpl; try discriminate.
+  destruct d; try (intros H; inversion H; constructor).
+  destruct (requeue_query _ _ _ _ _ _) as [st2 o2] eqn:Er. intros H. inversion H; subst.
+  eapply requeue_query_nodata; eauto.
 Qed.
 
 Lemma find_query_some st id q : find_query st id = Some q -> In q (ch_queries st) /\ q_qid q = id.
@@ -383,7 +410,8 @@ Proof.
   intros Fc Fq Hinv Hcn Hsrc H o tag Ho Hc.
   destruct d as [|mt|p]; simpl in H.
   - inversion H; subst. destruct Ho.
-  - destruct (close_connection cfg st (cn_id cn) ARES_EBADRESP) as [st1 o1] eqn:Ec.
+  - destruct (cf_udp_garbage_drop cfg && negb (cn_tcp cn)); [inversion H; subst; destruct Ho|].
+    destruct (close_connection cfg st (cn_id cn) ARES_EBADRESP) as [st1 o1] eqn:Ec.
     inversion H; subst. exfalso.
     destruct Ho as [<-|[<-|Ho]].
     + eapply nodata_fail; eauto.
@@ -610,31 +638,13 @@ Proof.
   intros I Hq Hsv. pose proof (inv_server _ I _ Hsv) as L8.
   assert (wfq (ch_conns st) q) as Wq by (pose proof (inv_wfq _ I) as W; rewrite Forall_forall in W; auto).
   unfold cookie_validate.
-  destruct (match p_cookie p with Some _ => _ | None => false end).
-  { intros H. inversion H; subst. exact I. }
-  destruct (q_cookie q) as [rc|].
-  2:{ intros H. inversion H; subst. exact I. }
-  destruct (match p_cookie p with Some rc0 => _ | None => Ok false end) as [mm| |]; simpl; try discriminate.
-  destruct mm. { intros H. inversion H; subst. exact I. }
-  destruct (match p_cookie p with Some rc0 => _ | None => Ok (sv_cookie sv) end) as [ck1| |] eqn:Eck; simpl;
-    try discriminate.
-  assert (zlen (ck_client ck1) = 8) as L1.
-  { destruct (p_cookie p) as [pc|]; [|inversion Eck; subst; exact L8].
-    destruct (8 <? zlen pc); [|inversion Eck; subst; exact L8].
-    destruct (memcmp8_eq _ _) in Eck; simpl in Eck; inversion Eck; subst. exact L8. }
-  assert (inv (update_cookie st (sv_idx sv) ck1)) as I1 by (now apply inv_update_cookie).
-  destruct (p_rcode p =? ARES_RCODE_BADCOOKIE).
-  - destruct (p_cookie p).
-    + destruct (requeue_query _ _ _ _ _ _) as [st2 o2] eqn:Er. intros H. inversion H; subst.
-      eapply requeue_query_inv; [exact I1| |exact Er].
-      destruct (COOKIE_RESEND_MAX <=? _); apply Wq.
-    + intros H. inversion H; subst. exact I1.
-  - destruct (8 <? _). { intros H. inversion H; subst. exact I1. }
-    destruct (ck_state ck1 =? C05_COOKIE_SUPPORTED).
-    { intros H. inversion H; subst. apply inv_update_cookie; [|exact I].
-      destruct (negb _); [exact L1|exact L1]. }
-    destruct (ck_state ck1 =? C05_COOKIE_GENERATED); intros H; inversion H; subst; [|exact I1].
-    apply inv_update_cookie; [apply zlen_repeat0_8|exact I].
+  destruct (cookie_decide _ _ _ _ _ _) as [[ck1 d]| |] eqn:Ed; simpl; try discriminate.
+  assert (inv (update_cookie st (sv_idx sv) ck1)) as I1.
+  { apply inv_update_cookie; [eapply cookie_decide_client; eauto|exact I]. }
+  destruct d; try (intros H; inversion H; subst; exact I1).
+  destruct (requeue_query _ _ _ _ _ _) as [st2 o2] eqn:Er. intros H. inversion H; subst.
+  eapply requeue_query_inv; [exact I1| |exact Er].
+  destruct (COOKIE_RESEND_MAX <=? _); apply Wq.
 Qed.
 
 Lemma cache_insert_inv cfg st q p now st1 outs :
@@ -657,7 +667,8 @@ Lemma process_answer_inv cfg st cn sv s u d st1 outs :
 Proof.
   intros I Hsv H. destruct d as [|mt|p]; simpl in H.
   - inversion H; subst. exact I.
-  - destruct (close_connection cfg st (cn_id cn) ARES_EBADRESP) as [sta oa] eqn:Ec.
+  - destruct (cf_udp_garbage_drop cfg && negb (cn_tcp cn)); [inversion H; subst; exact I|].
+    destruct (close_connection cfg st (cn_id cn) ARES_EBADRESP) as [sta oa] eqn:Ec.
     inversion H; subst. eapply close_connection_inv; eauto.
   - destruct (cf_fix_qr cfg && negb (p_qr p)); [inversion H; subst; exact I|].
     destruct (find_query st (p_id p)) as [q|] eqn:Eq; [|inversion H; subst; exact I].
@@ -815,21 +826,10 @@ Lemma cookie_validate_frame cfg st q p sv s u st1 outs v :
   ch_ctab st1 = ch_ctab st /\ ch_auth st1 = ch_auth st.
 Proof.
   unfold cookie_validate.
-  destruct (match p_cookie p with Some _ => _ | None => false end).
-  { intros H. inversion H; subst. auto. }
-  destruct (q_cookie q) as [rc|].
-  2:{ intros H. inversion H; subst. auto. }
-  destruct (match p_cookie p with Some rc0 => _ | None => Ok false end) as [mm| |]; simpl; try discriminate.
-  destruct mm. { intros H. inversion H; subst. auto. }
-  destruct (match p_cookie p with Some rc0 => _ | None => Ok (sv_cookie sv) end) as [ck1| |]; simpl; try discriminate.
-  destruct (p_rcode p =? ARES_RCODE_BADCOOKIE).
-  - destruct (p_cookie p).
-    + destruct (requeue_query _ _ _ _ _ _) as [st2 o2] eqn:Er. intros H. inversion H; subst.
-      destruct (requeue_query_conns _ _ _ _ _ _ _ _ Er) as [_ [_ [T [_ A]]]]. auto.
-    + intros H. inversion H; subst. auto.
-  - destruct (8 <? _). { intros H. inversion H; subst. auto. }
-    destruct (ck_state ck1 =? C05_COOKIE_SUPPORTED). { intros H. inversion H; subst. auto. }
-    destruct (ck_state ck1 =? C05_COOKIE_GENERATED); intros H; inversion H; subst; auto.
+  destruct (cookie_decide _ _ _ _ _ _) as [[ck1 d]| |]; simpl; try discriminate.
+  destruct d; try solve [intros H; inversion H; subst; auto].
+  destruct (requeue_query _ _ _ _ _ _) as [st2 o2] eqn:Er. intros H. inversion H; subst.
+  destruct (requeue_query_conns _ _ _ _ _ _ _ _ Er) as [_ [_ [T [_ A]]]]. auto.
 Qed.
 
 (* process_answer: a cache entry is either old or announced by an OCacheInsert output *)
@@ -840,7 +840,8 @@ Lemma process_answer_cache cfg st cn sv s u d st1 outs :
 Proof.
   intros H. destruct d as [|mt|p]; simpl in H.
   - inversion H; subst. auto.
-  - destruct (close_connection cfg st (cn_id cn) ARES_EBADRESP) as [sta oa] eqn:Ec.
+  - destruct (cf_udp_garbage_drop cfg && negb (cn_tcp cn)); [inversion H; subst; auto|].
+    destruct (close_connection cfg st (cn_id cn) ARES_EBADRESP) as [sta oa] eqn:Ec.
     inversion H; subst. destruct (close_connection_frame _ _ _ _ _ _ Ec) as [T [A _]].
     rewrite T. auto.
   - destruct (cf_fix_qr cfg && negb (p_qr p)); [inversion H; subst; auto|].
@@ -1097,35 +1098,47 @@ Proof.
   rewrite E. simpl. eauto.
 Qed.
 
+Lemma cookie_decide_defined ck reqc resp rcode s u :
+  cookie_len_ok reqc = true -> zlen (ck_client ck) = 8 ->
+  exists r, cookie_decide ck reqc resp rcode s u = Ok r.
+Proof.
+  intros Lq Lc. unfold cookie_decide.
+  destruct resp as [pc|].
+  - destruct ((zlen pc <? 8) || (40 <? zlen pc)) eqn:El; [eauto|].
+    apply orb_false_iff in El. destruct El as [L1 _]. apply Z.ltb_ge in L1.
+    destruct reqc as [rc|]; [|eauto].
+    simpl in Lq. apply andb_true_iff in Lq. destruct Lq as [Lq _]. apply Z.leb_le in Lq.
+    destruct (memcmp8_eq_defined rc pc Lq L1) as [e Ee]. rewrite Ee. simpl.
+    destruct (negb e); [eauto|].
+    destruct (8 <? zlen pc).
+    + destruct (memcmp8_eq_defined (ck_client ck) rc ltac:(lia) Lq) as [e2 Ee2].
+      rewrite Ee2. simpl. destruct (rcode =? ARES_RCODE_BADCOOKIE); eauto.
+    + simpl. destruct (rcode =? ARES_RCODE_BADCOOKIE); [eauto|].
+      destruct (_ =? C05_COOKIE_SUPPORTED).
+      * destruct (c_timeval_is_set_ok (ck_uts_sec ck) (ck_uts_usec ck)) as [r Er]. rewrite Er. simpl. eauto.
+      * destruct (_ =? C05_COOKIE_GENERATED); eauto.
+  - simpl. destruct reqc; [|eauto]. simpl.
+    destruct (rcode =? ARES_RCODE_BADCOOKIE); [eauto|].
+    destruct (_ =? C05_COOKIE_SUPPORTED).
+    + destruct (c_timeval_is_set_ok (ck_uts_sec ck) (ck_uts_usec ck)) as [r Er]. rewrite Er. simpl. eauto.
+    + destruct (_ =? C05_COOKIE_GENERATED); eauto.
+Qed.
+
 Lemma cookie_validate_defined cfg st q p sv s u :
   cookie_len_ok (q_cookie q) = true -> zlen (ck_client (sv_cookie sv)) = 8 ->
   exists r, cookie_validate cfg st q p sv s u = Ok r.
 Proof.
   intros Lq Lc. unfold cookie_validate.
-  destruct (p_cookie p) as [pc|] eqn:Epc.
-  - destruct ((zlen pc <? 8) || (40 <? zlen pc)) eqn:El; [eauto|].
-    apply orb_false_iff in El. destruct El as [L1 _]. apply Z.ltb_ge in L1.
-    destruct (q_cookie q) as [rc|] eqn:Erc; [|eauto].
-    simpl in Lq. apply andb_true_iff in Lq. destruct Lq as [Lq _]. apply Z.leb_le in Lq.
-    destruct (memcmp8_eq_defined rc pc Lq L1) as [e Ee]. rewrite Ee. simpl.
-    destruct (negb e); [eauto|].
-    destruct (8 <? zlen pc).
-    + destruct (memcmp8_eq_defined (ck_client (sv_cookie sv)) rc ltac:(lia) Lq) as [e2 Ee2].
-      rewrite Ee2. simpl.
-      destruct (p_rcode p =? ARES_RCODE_BADCOOKIE); [destruct (requeue_query _ _ _ _ _ _); eauto|].
-      eauto.
-    + simpl. destruct (p_rcode p =? ARES_RCODE_BADCOOKIE); [destruct (requeue_query _ _ _ _ _ _); eauto|].
-      destruct (_ =? C05_COOKIE_SUPPORTED); [eauto|]. destruct (_ =? C05_COOKIE_GENERATED); eauto.
-  - simpl. destruct (q_cookie q); [|eauto]. simpl.
-    destruct (p_rcode p =? ARES_RCODE_BADCOOKIE); [eauto|].
-    destruct (_ =? C05_COOKIE_SUPPORTED); [eauto|]. destruct (_ =? C05_COOKIE_GENERATED); eauto.
+  destruct (cookie_decide_defined (sv_cookie sv) (q_cookie q) (p_cookie p) (p_rcode p) s u Lq Lc) as [[ck1 d] Ed].
+  rewrite Ed. simpl. destruct d; eauto. destruct (requeue_query _ _ _ _ _ _). eauto.
 Qed.
 
 Lemma process_answer_defined cfg st cn sv s u d :
   inv st -> In sv (ch_servers st) -> exists r, process_answer cfg st cn sv s u d = Ok r.
 Proof.
   intros I Hsv. destruct d as [|mt|p]; simpl; [eauto| |].
-  - destruct (close_connection cfg st (cn_id cn) ARES_EBADRESP). eauto.
+  - destruct (cf_udp_garbage_drop cfg && negb (cn_tcp cn)); [eauto|].
+    destruct (close_connection cfg st (cn_id cn) ARES_EBADRESP). eauto.
   - destruct (cf_fix_qr cfg && negb (p_qr p)); [eauto|].
     destruct (find_query st (p_id p)) as [q|] eqn:Eq; [|eauto].
     destruct (find_query_some _ _ _ Eq) as [Hq _].
@@ -1238,6 +1251,7 @@ Proof.
   destruct (find_server st (cn_server cn)) as [sv|]; [|discriminate].
   destruct (negb (cn_tcp cn) && negb (src =? sv_addr sv)). { intros H. inversion H. constructor. }
   rewrite andb_false_r. simpl.
+  destruct (cf_udp_garbage_drop cfg && negb (cn_tcp cn)). { intros H. inversion H. constructor. }
   destruct (close_connection cfg st (cn_id cn) ARES_EBADRESP) as [sta oa] eqn:Ecl. simpl.
   intros H. inversion H; subst.
   constructor; [apply nodata_fail|]. constructor; [apply nodata_connerr|].
@@ -1322,7 +1336,8 @@ Definition w_echo : list event :=
 
 Definition w_empty : list event := [EOpenConn 10 0 false; ERead 10 100 1000 0 DEmpty].
 
-Definition w_cfg (fc fq fz : bool) : config := mkCfg false false false false 4 true 3600 fc fq fz.
+Definition w_cfg (fc fq fz : bool) : config := mkCfg false false false false 4 true 3600 fc fq fz false.
+Definition w_cfg_drop : config := mkCfg false false false false 4 true 3600 true true true true.
 
 (* what the last event of a run emitted, and the state it was applied to *)
 Definition last_step (cfg : config) (evs : list event) : option (chan * event * list output) :=
@@ -1449,24 +1464,11 @@ Lemma cookie_validate_only_unassigns cfg st q p sv s u st1 outs v :
   cookie_validate cfg st q p sv s u = Ok (st1, outs, v) -> only_unassigns st st1.
 Proof.
   unfold cookie_validate.
-  destruct (match p_cookie p with Some _ => _ | None => false end).
-  { intros H. inversion H; subst. apply only_unassigns_refl. }
-  destruct (q_cookie q) as [rc|].
-  2:{ intros H. inversion H; subst. apply only_unassigns_refl. }
-  destruct (match p_cookie p with Some rc0 => _ | None => Ok false end) as [mm| |]; simpl; try discriminate.
-  destruct mm. { intros H. inversion H; subst. apply only_unassigns_refl. }
-  destruct (match p_cookie p with Some rc0 => _ | None => Ok (sv_cookie sv) end) as [ck1| |]; simpl; try discriminate.
-  destruct (p_rcode p =? ARES_RCODE_BADCOOKIE).
-  - destruct (p_cookie p).
-    + destruct (requeue_query _ _ _ _ _ _) as [st2 o2] eqn:Er. intros H. inversion H; subst.
-      eapply only_unassigns_trans; [|eapply requeue_query_only_unassigns; eauto].
-      now apply only_unassigns_same_queries.
-    + intros H. inversion H; subst. now apply only_unassigns_same_queries.
-  - destruct (8 <? _). { intros H. inversion H; subst. now apply only_unassigns_same_queries. }
-    destruct (ck_state ck1 =? C05_COOKIE_SUPPORTED).
-    { intros H. inversion H; subst. now apply only_unassigns_same_queries. }
-    destruct (ck_state ck1 =? C05_COOKIE_GENERATED); intros H; inversion H; subst;
-      now apply only_unassigns_same_queries.
+  destruct (cookie_decide _ _ _ _ _ _) as [[ck1 d]| |]; simpl; try discriminate.
+  destruct d; try (intros H; inversion H; subst; now apply only_unassigns_same_queries).
+  destruct (requeue_query _ _ _ _ _ _) as [st2 o2] eqn:Er. intros H. inversion H; subst.
+  eapply only_unassigns_trans; [|eapply requeue_query_only_unassigns; eauto].
+  now apply only_unassigns_same_queries.
 Qed.
 
 Theorem process_answer_only_unassigns cfg st cn sv s u d st1 outs :
@@ -1474,7 +1476,8 @@ Theorem process_answer_only_unassigns cfg st cn sv s u d st1 outs :
 Proof.
   intros H. destruct d as [|mt|p]; simpl in H.
   - inversion H; subst. apply only_unassigns_refl.
-  - unfold close_connection in H.
+  - destruct (cf_udp_garbage_drop cfg && negb (cn_tcp cn)); [inversion H; subst; apply only_unassigns_refl|].
+    unfold close_connection in H.
     destruct (requeue_all cfg st _ ARES_EBADRESP) as [sta oa] eqn:Ea. inversion H; subst.
     eapply only_unassigns_trans; [eapply requeue_all_only_unassigns; eauto|].
     now apply only_unassigns_same_queries.
@@ -1580,4 +1583,27 @@ Lemma malformed_not_inert_stmt :
     run_trace (w_cfg true true true) (init_chan w_servers) w_malformed = Ok (tr, st) /\
     map (fun x => snd x) (skipn 3 tr) = [[OServerFail 0 9; OConnError 10]] /\
     map q_try (ch_queries st) = [1] /\ map q_conn (ch_queries st) = [None] /\ ch_conns st = [].
+Proof. eexists. eexists. vm_compute. repeat split. Qed.
+
+(* with fixes/C05-udp-garbage-drop.patch the exception disappears on UDP: a datagram that is
+   empty or does not parse changes nothing, wherever it comes from *)
+Theorem udp_garbage_inert cfg st c src s u d cn sv :
+  cf_udp_garbage_drop cfg = true -> cf_fix_zerolen cfg = true ->
+  find_conn st c = Some cn -> find_server st (cn_server cn) = Some sv -> cn_tcp cn = false ->
+  (d = DEmpty \/ exists t, d = DMalformed t) ->
+  exists st1, step cfg st (ERead c src s u d) = Ok (st1, []) /\ same_but_cookies st1 st.
+Proof.
+  intros Fd Fz Ec Es Et Hd. simpl. rewrite Ec, Es, Et, Fz. simpl.
+  destruct (negb (src =? sv_addr sv)).
+  { eexists. split; [reflexivity|apply same_but_cookies_refl]. }
+  destruct Hd as [->|[t ->]]; simpl.
+  - eexists. split; [reflexivity|]. repeat split.
+  - rewrite Fd, Et. simpl. eexists. split; [reflexivity|]. repeat split.
+Qed.
+
+Lemma malformed_inert_with_drop_stmt :
+  exists tr st,
+    run_trace w_cfg_drop (init_chan w_servers) w_malformed = Ok (tr, st) /\
+    map (fun x => snd x) (skipn 3 tr) = [[]] /\
+    map q_try (ch_queries st) = [0] /\ map q_conn (ch_queries st) = [Some 10].
 Proof. eexists. eexists. vm_compute. repeat split. Qed.
